@@ -17,12 +17,7 @@ Notation copy_rows := (copy_rows conv genv).
 Notation eval_expr := (eval_expr conv).
 Notation kept_rows := (kept_rows conv).
 
-(** run until the first refused statement *)
-Fixpoint run (d : db) (l : list stmt) : db * option eerr :=
-  match l with
-  | [] => (d, None)
-  | s :: l' => match exec d s with EErr e => (d, Some e) | EOk d' => run d' l' end
-  end.
+Notation run := (run conv genv).
 
 Lemma run_prefix l : forall d d' r, run d l = (d', r) -> exists k, exec_all d (firstn k l) = EOk d'.
 Proof.
@@ -440,6 +435,44 @@ Corollary C05_refused_plan_keeps_rows_lemma :
 Proof.
   intros d cs p d' r WF PE NDN P R. apply run_prefix in R. destruct R as [k X].
   eapply C05_no_prefix_loses_rows_lemma; eauto.
+Qed.
+
+(** *** `atlas schema apply`, both transaction modes, any initial setting of foreign_keys *)
+Notation schema_apply := (schema_apply conv genv).
+
+Lemma C05_schema_apply_lemma :
+  forall mode d cs d' r,
+  d_intx d = false -> wf_changes cs -> NoDup (names d) ->
+  schema_apply mode d cs = Some (d', r) ->
+  (mode = TxFile -> d_fk d' = d_fk d /\ d_intx d' = false) /\
+  (mode = TxFile -> r <> None -> d_tables d' = d_tables d) /\
+  (forall n, ~ In n (flat_map touched cs) -> find_et n (d_tables d') = find_et n (d_tables d)) /\
+  (forall t m told, In (ModifyTable t m) cs -> NoDup (map rc_name (td_cols t)) ->
+     find_et (td_name t) (d_tables d) = Some told ->
+     (r = None -> exists tnew, find_et (td_name t) (d_tables d') = Some tnew /\ kept_rows t m told tnew) /\
+     somewhere t m told d').
+Proof.
+  intros mode d cs d' r NT WF NDN H. unfold RowsModel.schema_apply in H.
+  destruct (PlanChanges cs) as [p|e] eqn:P; [|discriminate].
+  destruct mode.
+  - (* --tx-mode none *)
+    inversion H as [R]. clear H.
+    assert (pragma_effective d) as PE by (right; exact NT).
+    destruct (C05_refused_plan_keeps_rows_lemma d cs p d' r WF PE NDN P R) as [FR SW].
+    split; [discriminate|]. split; [discriminate|]. split; [exact FR|].
+    intros t m told Hin ND FT. split; [|apply SW; assumption].
+    intros ->. apply run_complete in R.
+    destruct (apply_general conv genv cs p d d' P PE WF R) as [_ EF]. apply EF; assumption.
+  - (* --tx-mode file *)
+    assert (pragma_effective (OpenTx d)) as PE by (left; reflexivity).
+    destruct (exec_all (OpenTx d) p) as [d1|e] eqn:X; inversion H; subst d' r; clear H.
+    + destruct (apply_general conv genv cs p (OpenTx d) d1 P PE WF X) as [FR EF].
+      split; [intros _; simpl; auto|]. split; [intros _ C; exfalso; apply C; reflexivity|].
+      split; [exact FR|].
+      intros t m told Hin ND FT. destruct (EF t m told Hin ND FT) as [tnew [FN K]].
+      split; [intros _; exists tnew; auto|]. left. exists tnew. simpl. auto.
+    + split; [intros _; simpl; auto|]. split; [intros _ _; reflexivity|]. split; [reflexivity|].
+      intros t m told Hin ND FT. split; [discriminate|]. left. exists told. simpl. auto.
 Qed.
 
 End Prefix.
